@@ -106,12 +106,33 @@ func (s *slowStart) Read(p []byte) (int, error) {
 // sharedStreamBudget bounds the number of shared-stream cases per worker (each waits 2 ms per reader).
 var sharedStreamBudget = 400
 
-func parseTree(srcs []string) (d *tree.Dialogue, err error, pan string) {
+// brokenReader delivers the beginning of a script and then fails.
+type brokenReader struct{ sent bool }
+
+func (b *brokenReader) Read(p []byte) (int, error) {
+	if !b.sent {
+		b.sent = true
+		return copy(p, "title: Sta"), nil
+	}
+	return 0, fmt.Errorf("connection reset")
+}
+
+func parseTree(srcs []string, afterFailedLoads ...bool) (d *tree.Dialogue, err error, pan string) {
 	defer func() {
 		if r := recover(); r != nil {
 			d, err, pan = nil, nil, fmt.Sprint(r)
 		}
 	}()
+	// whatever was loaded (or failed to load) before has no bearing on what a script means: every load of the check is
+	// preceded by one that fails half way through its input, and by one that is refused for its syntax
+	// (the canonical rendering, which the others are compared with, is loaded without that)
+	if len(afterFailedLoads) > 0 && afterFailedLoads[0] {
+		func() {
+			defer func() { recover() }()
+			tree.FromReaders(strings.NewReader("title: Z\n---\n-> o\n    in\n<<if>>\n"))
+			tree.FromReaders(&brokenReader{})
+		}()
+	}
 	rs := make([]io.Reader, len(srcs))
 	for i, s := range srcs {
 		rs[i] = strings.NewReader(s)
@@ -217,7 +238,7 @@ func (b *c08Base) compare(ctx *report.Ctx, c *explore.Chooser, partName, devName
 			Detail:  detail + " -- canonical rendering: " + visualize(scriptOf(b.canon)),
 			Choices: c.Choices(), Part: partName, Extra: map[string]any{"scripts": srcs, "canonical": b.canon, "deviation": devName}})
 	}
-	d, err, pan := parseTree(srcs)
+	d, err, pan := parseTree(srcs, true)
 	switch {
 	case pan != "":
 		fail("layout-panic", "loading the deviated rendering panicked: "+pan)
